@@ -14,3 +14,4 @@ open SSVerif.Api
 #print axioms C08_utterance_function
 #print axioms C08_batch_no_reset
 #print axioms C08_instances_disjoint
+#print axioms C08_topn_rescan_independent
